@@ -45,7 +45,11 @@ RULE = ('kets and bras from from_full / random block-sparse tensors + canonical_
         'switched off / misused, duplicate sites (malformed), sample_measurements on windows of finite and infinite '
         'MPS with lists of measurement bases and the probability flag, empty / out-of-range windows, '
         'expectation_value argument parsing (n-site operators, default and explicit sites, wrong axes, windows '
-        'beyond the chain), get_op on every index of -2L..3L, mutinf_two_site coordinates, default j_R.')
+        'beyond the chain), get_op on every index of -2L..3L, mutinf_two_site coordinates, default j_R; repeated evaluation '
+        '(2-3 times) of the same TermList / term / ops lists / site arrays / caller-owned numpy strength arrays on fermionic '
+        'finite and infinite MPS (unordered fermionic terms, terms beyond the first unit cell, shift() copies): every '
+        'evaluation equals the dense value, caller-owned arguments bit-identical afterwards, an evaluated TermList still '
+        'describes the same operator.')
 TRUSTED = ['Lean 4.33 kernel; axioms of every C08_* theorem ⊆ {propext, Classical.choice, Quot.sound}',
            'model lean/TenpyModel/MPS/{Chain,Basic,Measure}.lean tied to tenpy/networks/mps.py by this run',
            'dense oracle: numpy kron operators built from Site.get_op(...).to_ndarray() (operator tables are C12), '
